@@ -29,7 +29,7 @@ def classify_exception(e, case):
 
 
 def drive(body, strategy, *, rec: Recorder, findings: Findings, seed: int, max_examples: int,
-          shrink_budget: int = 300, max_sigs: int = 6, to_case=None, stateful_steps=None):
+          shrink_budget: int = 300, max_sigs: int = 6, to_case=None, stateful_steps=None, shrink: bool = True):
     """body(value) runs one generated case; it counts the case on `rec` itself and raises
     Violation on deviation (with .finding set when it satisfies a known-finding trigger).
 
@@ -73,7 +73,8 @@ def drive(body, strategy, *, rec: Recorder, findings: Findings, seed: int, max_e
             st["failed_keys"].add(canon(to_case(value) if to_case else value))
             raise v
 
-        phases = [Phase.explicit, Phase.generate, Phase.shrink]
+        # very expensive cases (fresh interpreters) are reported unshrunk: the generated case is small
+        phases = [Phase.explicit, Phase.generate] + ([Phase.shrink] if shrink else [])
         test = given(strategy)(wrapped)
         test = settings(max_examples=max_examples, database=None, deadline=None,
                         derandomize=False, report_multiple_bugs=False, phases=phases,
